@@ -159,6 +159,7 @@ fn run_op(h: &SingletonHolder<Val>, role: u64, op: &str, id: u64) -> (String, u6
 
 pub fn replay(a: &Args) {
     let input = std::fs::read_to_string(a.req("in")).expect("read behaviours");
+    let maxdiv = a.num("maxdiv", 4);
     let _ = TRACE.set(Arc::new(Trace::create(&a.req("out"))));
     install(true);
     LOG_SHIM.store(true, Ordering::SeqCst);
@@ -170,7 +171,7 @@ pub fn replay(a: &Args) {
         if line.trim().is_empty() {
             continue;
         }
-        if ndiv >= 3 {
+        if ndiv >= maxdiv {
             skipped += 1;
             continue;
         }
